@@ -3,6 +3,7 @@ package main
 
 import (
 	"fmt"
+	"math"
 	"math/rand"
 	"sort"
 	"strconv"
@@ -78,6 +79,10 @@ func gen(r *rand.Rand, thorough bool, i int) []string {
 		base = 1<<62 - 3
 	}
 	illformed := r.Intn(8) == 0
+	// every 6th case draws its rounds from the whole int64 range: rounds more than 2^63 apart are where a
+	// comparison written as a subtraction would change sign
+	wide := r.Intn(6) == 0
+	wideRounds := []int64{math.MinInt64, math.MinInt64 + 1, -(1 << 62), -1, 0, 1, 10, 1 << 62, math.MaxInt64 - 1, math.MaxInt64}
 	ops := []string{fmt.Sprintf("new %d", max)}
 	var last string
 	for k := 0; k < n; k++ {
@@ -86,6 +91,10 @@ func gen(r *rand.Rand, thorough bool, i int) []string {
 			rd := base + r.Int63n(span)
 			variant := r.Intn(2) // up to two distinct blocks per round
 			d := int((rd-base)*2) + variant
+			if wide {
+				j := r.Intn(len(wideRounds))
+				rd, d = wideRounds[j], j*2+variant
+			}
 			if illformed {
 				d = r.Intn(4)
 			}
